@@ -32,6 +32,20 @@ def _defaults() -> st.SearchStrategy:
     return st.one_of(gen.literal_defaults(), gen.literal_defaults(), gen.literal_defaults(), st.sampled_from(NONLITERAL))
 
 
+SHARED_PARAM_NAMES = ["a", "b", "x", "value", "data", "args", "kwargs", "key", "n", "other", "self_", "opts"]
+
+
+def _share_names(draw: Any, params: list[dict]) -> list[dict]:
+    """Half of the signatures take their parameter names from a small pool shared by all functions of the package
+    (unique within one signature): the same name then occurs with different kinds, types and defaults elsewhere."""
+    if not params or draw(st.booleans()):
+        return params
+    names = draw(st.permutations(SHARED_PARAM_NAMES))[: len(params)]
+    for p, n in zip(params, names):
+        p["name"] = n
+    return params
+
+
 @st.composite
 def _case(draw: Any, args: dict) -> dict:
     namer = gen.Namer()
@@ -40,7 +54,7 @@ def _case(draw: Any, args: dict) -> dict:
     n_classes = draw(st.integers(2, 5))
     decls: list[dict] = []
     for _ in range(n_funcs):
-        params = draw(gen.signatures(namer, ann, _defaults()))
+        params = _share_names(draw, draw(gen.signatures(namer, ann, _defaults())))
         if draw(st.integers(0, 9)) == 0 and params and params[0]["kind"] in {"pos", "posonly"}:
             params[0]["name"] = draw(st.sampled_from(["self", "cls"]))
         decls.append(gt.func(namer.fresh("fn_"), params))
@@ -53,11 +67,12 @@ def _case(draw: Any, args: dict) -> dict:
                 recv = draw(st.sampled_from(["self", "self", "this", "me", "cls", "_"]))
             elif kind == "classmethod":
                 recv = draw(st.sampled_from(["cls", "cls", "klass", "self"]))
-            params = draw(gen.signatures(namer, ann, _defaults(), max_params=5))
+            params = _share_names(draw, draw(gen.signatures(namer, ann, _defaults(), max_params=5)))
+            params = [p for p in params if p["name"] != recv]
             members.append(gt.func(namer.fresh("meth_"), params, kind=kind, recv=recv))
         ctor = None
         if draw(st.booleans()):
-            ctor = gt.func("__init__", draw(gen.signatures(namer, ann, _defaults(), max_params=5)), kind="method", recv=draw(st.sampled_from(["self", "self", "this"])))
+            ctor = gt.func("__init__", _share_names(draw, draw(gen.signatures(namer, ann, _defaults(), max_params=5))), kind="method", recv=draw(st.sampled_from(["self", "self", "this"])))
         decls.append(gt.klass(namer.fresh("Cls"), members, ctor=ctor))
     order = draw(st.permutations(range(len(decls))))
     decls = [decls[i] for i in order]
